@@ -3,7 +3,7 @@
 import sys, os, shutil, json, re
 pid, name = sys.argv[1], sys.argv[2]
 needs = " ".join(sys.argv[3:])
-src = f"/tmp/mut/{pid}-out"
+src = os.environ.get("SRC", f"/tmp/mut/{pid}-out")
 dst = f"/verif/seeded/{name}"
 os.makedirs(dst, exist_ok=True)
 for f in ("patch.diff", "demo.diff", "notes.md"):
@@ -18,7 +18,7 @@ def tail(p):
     except Exception as e:
         return {"error": str(e)}
 meta = {
-    "seed": name, "breaks_property": pid[:3], "needs_to_manifest": needs,
+    "seed": name, "breaks_property": os.environ.get("BREAKS", pid[:3]), "needs_to_manifest": needs,
     "produced_by": "fresh sub-agent given only the property text and a scratch worktree of /repo",
     "confirmed_by_me": {
         "how": f"tools/verify_seed.sh {pid} in the scratch worktree /tmp/mut/{pid} (reset to HEAD, demo.diff + patch.diff applied, full workspace suite; then patch reverted, suite again)",
